@@ -271,38 +271,32 @@ theorem ainv_defineNewFunction (s : BState) (name : NameKey) (nameStr : String) 
       subst hs
       exact defFlags_noAlias m fl hm hfl
 
+theorem ainv_copyStep (w : World) (Q : Program) (m q : Nat) (hm : bitsOK m) (s0 : BState) (i : Nat) (h0 : AInv s0) :
+    AInv (copyStep w q Q m s0 i) := by
+  unfold copyStep
+  cases chase w w.fuel q i 0 0 with
+  | none => exact h0
+  | some fr =>
+    simp only
+    cases (w.progs[fr.prog]?.bind (·.ft[fr.fidx]?)) with
+    | none => exact h0
+    | some fe =>
+      simp only
+      cases hid : s0.ident fe.name with
+      | none => exact ainv_copyFunction s0 _ _ _ _ h0 hm
+      | some num =>
+        obtain ⟨n, hmem⟩ := ident_mem s0 fe.name num hid
+        exact ainv_overloadFunction s0 _ _ _ _ h0 hm (h0.identLt n num hmem)
+          (fun sl hs => h0.identNA n num sl hmem hs)
+
 theorem ainv_copyFunctions (w : World) (Q : Program) (m q : Nat) (hm : bitsOK m) (l : List Nat) :
-    ∀ s0, AInv s0 → AInv (l.foldl (fun s i =>
-      match chase w w.fuel q i 0 0 with
-      | none => s
-      | some fr =>
-        match (w.progs[fr.prog]?.bind (·.ft[fr.fidx]?)) with
-        | none => s
-        | some fe =>
-          let srcFlags := Q.flags.getD i 0
-          match s.ident fe.name with
-          | some num => overloadFunction s srcFlags i num m
-          | none => copyFunction s srcFlags i m fe.name) s0) := by
+    ∀ s0, AInv s0 → AInv (l.foldl (copyStep w q Q m) s0) := by
   induction l with
   | nil => intro s0 h0; exact h0
   | cons i rest ih =>
     intro s0 h0
     simp only [List.foldl_cons]
-    apply ih
-    cases chase w w.fuel q i 0 0 with
-    | none => exact h0
-    | some fr =>
-      simp only
-      cases (w.progs[fr.prog]?.bind (·.ft[fr.fidx]?)) with
-      | none => exact h0
-      | some fe =>
-        simp only
-        cases hid : s0.ident fe.name with
-        | none => exact ainv_copyFunction s0 _ _ _ _ h0 hm
-        | some num =>
-          obtain ⟨n, hmem⟩ := ident_mem s0 fe.name num hid
-          exact ainv_overloadFunction s0 _ _ _ _ h0 hm (h0.identLt n num hmem)
-            (fun sl hs => h0.identNA n num sl hmem hs)
+    exact ih _ (ainv_copyStep w Q m q hm s0 i h0)
 
 theorem ainv_doInherit (w : World) (s : BState) (m q : Nat) (h : AInv s) (hm : bitsOK m) : AInv (doInherit w s m q) := by
   unfold doInherit
@@ -353,5 +347,101 @@ theorem built_aliasOrdered (w : World) (items : List Item) (hm : ∀ it ∈ item
   cases hal : hasBit sl.flags nameAlias with
   | false => exact Or.inl rfl
   | true => exact Or.inr (h.ordered i sl hs hal)
+
+/-! ### the inherit list: every entry names a program of the world (clause `inherit.prog < p` of wfFind / wfSlots) -/
+
+theorem inherits_copyFunction (s : BState) (a b c : Nat) (n : NameKey) : (copyFunction s a b c n).inherits = s.inherits := rfl
+
+theorem inherits_modifySlot (s : BState) (i : Nat) (f : BSlot → BSlot) : (modifySlot s i f).inherits = s.inherits := rfl
+
+theorem inherits_overloadFunction (s : BState) (a b c d : Nat) : (overloadFunction s a b c d).inherits = s.inherits := by
+  unfold overloadFunction
+  cases s.slots[c]? with
+  | none => rfl
+  | some old =>
+    simp only [bumpCount, latestWins, addAlias]
+    split <;> split <;> (try split) <;> rfl
+
+theorem inherits_defineNewFunction (s : BState) (n : NameKey) (ns : String) (a b : Nat) :
+    (defineNewFunction s n ns a b).1.inherits = s.inherits := by
+  unfold defineNewFunction
+  simp only
+  cases s.ident n with
+  | none => rfl
+  | some rn =>
+    simp only
+    cases s.slots[rn]? with
+    | none => rfl
+    | some sl =>
+      simp only
+      split
+      · rfl
+      · split
+        · rfl
+        · split <;> rfl
+
+theorem inherits_copyStep (w : World) (Q : Program) (m q : Nat) (s0 : BState) (i : Nat) :
+    (copyStep w q Q m s0 i).inherits = s0.inherits := by
+  unfold copyStep
+  cases chase w w.fuel q i 0 0 with
+  | none => rfl
+  | some fr =>
+    simp only
+    cases (w.progs[fr.prog]?.bind (·.ft[fr.fidx]?)) with
+    | none => rfl
+    | some fe =>
+      simp only
+      cases s0.ident fe.name with
+      | none => rfl
+      | some num => exact inherits_overloadFunction s0 _ _ _ _
+
+theorem inherits_copyFunctions (w : World) (Q : Program) (m q : Nat) (l : List Nat) :
+    ∀ s0 : BState, (l.foldl (copyStep w q Q m) s0).inherits = s0.inherits := by
+  induction l with
+  | nil => intro s0; rfl
+  | cons i rest ih =>
+    intro s0
+    simp only [List.foldl_cons]
+    rw [ih, inherits_copyStep]
+
+def InhOK (w : World) (s : BState) : Prop := ∀ ih ∈ s.inherits, ih.prog < w.progs.length
+
+theorem inhOK_doItem (w : World) (s : BState) (it : Item) (h : InhOK w s) : InhOK w (doItem w s it) := by
+  cases it with
+  | var m => exact h
+  | proto m name nameStr =>
+    show InhOK w (defineNewFunction s name nameStr (nameUndefined ||| namePrototype) m).1
+    unfold InhOK
+    rw [inherits_defineNewFunction]; exact h
+  | defn m name nameStr calls =>
+    unfold InhOK doItem
+    simp only
+    split <;> (simp only [inherits_defineNewFunction]; exact h)
+  | inh m q =>
+    show InhOK w (doInherit w s m q)
+    unfold InhOK doInherit
+    cases hq : w.progs[q]? with
+    | none => exact h
+    | some Q =>
+      intro ih hm
+      simp only at hm
+      rw [inherits_copyFunctions] at hm
+      rcases List.mem_append.mp hm with hm | hm
+      · exact h ih hm
+      · simp only [List.mem_singleton] at hm
+        subst hm
+        rcases Nat.lt_or_ge q w.progs.length with hlt | hge
+        · exact hlt
+        · rw [List.getElem?_eq_none_iff.mpr hge] at hq; simp at hq
+
+/-- every inherit entry of every built program names a program of the world it was compiled against -/
+theorem built_inherits_in_world (w : World) (name : String) (id : Nat) (items : List Item) :
+    ∀ ih ∈ (buildProgram w name id items).inherit, ih.prog < w.progs.length := by
+  have key : ∀ (l : List Item) s, InhOK w s → InhOK w (l.foldl (doItem w) s) := by
+    intro l
+    induction l with
+    | nil => intro s h; exact h
+    | cons it rest ih => intro s h; exact ih _ (inhOK_doItem w s it h)
+  exact key items {} (by intro ih h; simp at h)
 
 end NV.C07
